@@ -56,7 +56,7 @@ def run(ck):
     ck.cat("ordered_pairs", len(seqs))
     L = 8 if q else 30
     r = ck.mc("Session", "CONSTANTS MenuSize = %d MaxLen = %d\nINIT Init\nNEXT Next\nINVARIANT Emit\n" % (n, L), "GEN simulated long call histories",
-              simulate="num=%d" % (10 if q else 60), depth=L + 1, dedupe_emits=True, workers=8)
+              simulate="num=%d" % (32 if q else 1000), depth=L + 1, dedupe_emits=True, workers=8)
     longs = sorted((e["calls"] for e in r.emitted), key=json.dumps)
     ck.rng.shuffle(longs)
     longs = longs[:250 if q else 8000]
